@@ -56,6 +56,10 @@ def run(ctx: Ctx) -> None:
             o_.rule = "C16.R13/" + o_.rule
         for k_ in [k_ for k_ in rep.floors if k_.startswith("C12.")]:
             rep.floors["C16.R13/" + k_] = rep.floors.pop(k_)
+    from .c17 import codec_duals as _cd16
+    rep.rule("C16.R16", "as C17.R4/R5: keep followed by load round-trips under every usable configuration - what a view, a second view or another process reads back from the shared "
+                        "internal directory is what was written (codecs are dual, binary mode)")
+    _cd16(ctx, "C16.R16", "C16.R16")
     rep.rule("C16.R14", "sharing computed blobs between two data views never changes a value: has_blob answers True only when every name that fetch_blob reads (blob and metadata) exists")
     n14 = S.presence_requires_all(ctx, v, "C16.R14")
     rep.floor("C16.R14", n14, 2)
